@@ -23,6 +23,7 @@ def inst(text, slots, kept, **names):
 
 PRELUDE = r'''
 use vstd::std_specs::hash::*;
+use vstd::std_specs::iter::IteratorSpec;
 /// the view group `compile` reasons with, on the real representation
 pub open spec fn m_slots(g: GlobalEnvironment) -> Seq<VCell> { g.slots_spec() }
 pub open spec fn m_kept(g0: GlobalEnvironment, g1: GlobalEnvironment) -> bool {
@@ -64,6 +65,19 @@ UNITS = [{
             ],
             'ensures': [(G, 'final(self).wf()'),
                         (G, inst(GET_BINDING_MODEL, 'm_slots', 'm_kept', g0='*old(self)', g1='*final(self)', r0='r'))],
+        },
+        # what the collector's root enumeration walks: every bound symbol, every slot
+        'impl GlobalEnvironment::iter_bindings': {
+            'props': ['C03', 'C06'],
+            'body_start': 'broadcast use vstd::std_specs::hash::group_hash_axioms;',
+            'ensures': [(['C03'], 'r.obeys_prophetic_iter_laws() && r.decrease() is Some'),
+                        (['C03'], 'forall|s: usize| self.bindings_spec().contains_key(s) ==> exists|j: int| 0 <= j < r.remaining().len() && *(#[trigger] r.remaining()[j]) == s')],
+        },
+        'impl GlobalEnvironment::iter_slots': {
+            'props': ['C03', 'C06'],
+            'ensures': [(['C03'], 'r.obeys_prophetic_iter_laws() && r.decrease() is Some'),
+                        (['C03'], 'r.remaining().len() == self.slots_spec().len()'),
+                        (['C03'], 'forall|j: int| 0 <= j < self.slots_spec().len() ==> *(#[trigger] r.remaining()[j]) == self.slots_spec()[j]')],
         },
         'impl GlobalEnvironment::get_slot': {
             'props': G + ['C06'],
